@@ -102,8 +102,9 @@ def mMatrix (m : Matrix) : Val :=
 
 /-- `(*Cache).MarshalJSON`. -/
 def mCache (c : Cache) : Val :=
-  if c.disabled then .bool false
-  else inlineFriendly ((if c.name == "" then [] else [("name", .str c.name)]) ++
+  if c.disabled && c.name == "" && (c.paths.getD []).isEmpty && c.size == "" && (c.rem.getD []).isEmpty then .bool false
+  else inlineFriendly ((if c.disabled then [("disabled", .bool true)] else []) ++
+        (if c.name == "" then [] else [("name", .str c.name)]) ++
         (if (c.paths.getD []).isEmpty then [] else [("paths", strsV (c.paths.getD []))]) ++
         (if c.size == "" then [] else [("size", .str c.size)])) c.rem
 
